@@ -86,19 +86,25 @@ impl Grp for G2Projective {
 }
 
 const SOURCES: [&str; 4] = ["explicit-random", "explicit-known-dlog", "generated", "public-key"];
-const SC_NAMES: [&str; 4] = ["0", "1", "q-1", "random"];
+const SC_NAMES: [&str; 8] = ["0", "1", "q-1", "random", "2^63-1", "2^63|r", "2^64-1", "2^64+r"];
 
 fn sc_of(class: usize, rng: &mut impl RngCore) -> Scalar {
-    match class % 4 {
+    match class % 8 {
         0 => Scalar::zero(),
         1 => Scalar::one(),
         2 => q_minus_1(),
-        _ => Scalar::random(&mut *rng),
+        3 => Scalar::random(&mut *rng),
+        // machine-word-sized exponents: the sizes of balances, amounts and digits, and just beyond
+        4 => Scalar::from(i64::MAX as u64),
+        5 => Scalar::from(rng.next_u64() | (1 << 63)),
+        6 => Scalar::from(u64::MAX),
+        _ => Scalar::from_raw([rng.next_u64(), 1, 0, 0]),
     }
 }
 
 /// Message number `mi`: 0..4 constant class; 4..8 cyclic layouts of {0,1,q-1,random};
-/// 8 a single random coordinate, others 0; from 9 on a random class per coordinate.
+/// 8 a single random coordinate, others 0; 9 the word-sized classes laid out cyclically; 10 every
+/// coordinate a 64-bit value with bit 63 set; from 11 on a random class per coordinate.
 fn message<const N: usize>(mi: usize, rng: &mut impl RngCore) -> ([Scalar; N], String) {
     let mut vals = [Scalar::zero(); N];
     let mut names = vec![];
@@ -114,7 +120,9 @@ fn message<const N: usize>(mi: usize, rng: &mut impl RngCore) -> ([Scalar; N], S
                     0
                 }
             }
-            _ => (rng.next_u32() % 4) as usize,
+            9 => 4 + (i + 1) % 4,
+            10 => 5,
+            _ => (rng.next_u32() % 8) as usize,
         };
         vals[i] = sc_of(cl, rng);
         names.push(SC_NAMES[cl]);
@@ -307,7 +315,8 @@ where
     };
     let (m, mname) = message::<N>(mi, &mut rng);
     let thorough = c.tier.pick(false, true);
-    for bfc in 0..4usize {
+    let bfcs: Vec<usize> = if mi == 10 { vec![0, 1, 2, 3, 5, 6] } else { vec![0, 1, 2, 3] };
+    for bfc in bfcs {
         let r = sc_of(bfc, &mut rng);
         let cx = Cx::<G, N> { p: &p, source, key: format!("{}/N={}/{}/{}/msg={}/bf={}", G::NAME, N, source, inst, mname, SC_NAMES[bfc]) };
 
@@ -370,7 +379,7 @@ where
         // a different commitment against the original opening, additivity, decoded commitments
         // (quick tier: under the random blinding factor and one rotating constant one)
         if thorough || bfc == 3 || bfc == mi % 3 {
-            let (m3, _) = message::<N>(9, &mut rng);
+            let (m3, _) = message::<N>(11, &mut rng);
             let r3 = Scalar::random(&mut rng);
             if let Some((other, _)) = cx.commit_check(c, &m3, &r3, "second") {
                 if other.to_element() != com.to_element() {
@@ -540,7 +549,7 @@ pub fn run(c: &mut Ctx) {
         json!("One case per (group in {G1,G2}, N in {1,2,3,5,8,13}, parameter source, parameter instance, message number; in the quick tier each message number meets one of two instances); inside, the four blinding-factor classes {0,1,q-1,random}. Sources: from_generators with random generators (odd instances repeat one generator), from_generators with generators a_i*B of known discrete logarithms (even instances small a_i), PedersenParameters::new (generators recovered from the wire form, fields h and gs[i]), ToPedersenParameters of a fresh public key (generators read from the key's wire form). Messages: numbers 0-3 constant class from {0,1,q-1,random}, 4-7 cyclic layouts, 8 one random coordinate, 9+ random class per coordinate. Per opening: to_element vs reference; verify_opening vs (reference == commitment) on the original opening, on every coordinate changed by +1 and to a random value (quick tier: +1 on every coordinate under the random and one rotating constant blinding-factor class, the random replacement on every coordinate under the random class, one rotating coordinate gets +1, -1 and random under every class, the last coordinate also -1; thorough tier: +1, -1, random and 0/1 everywhere), on the blinding factor +1 / random / negated, on a second commitment (this and the following checks under two of the four blinding-factor classes in the quick tier), on commitments decoded from a random element and from the identity, on the sum of two commitments with the summed opening, and (known discrete logarithms only) on two different openings that recompute to the same element, which must be accepted; additivity Com(m,r)+Com(m',r') = Com(m+m',r+r') against library and reference. Distinct = (group, N, source, instance, per-coordinate message classes, blinding-factor class, check)."),
     );
     let insts = c.tier.pick(2usize, 4);
-    let msgs = c.tier.pick(10usize, 24);
+    let msgs = c.tier.pick(12usize, 26);
     run_n::<1>(c, insts, msgs);
     run_n::<2>(c, insts, msgs);
     run_n::<3>(c, insts, msgs);
